@@ -38,7 +38,7 @@ SHARED = {
         ("c05", {"C05.counted-operands": "C03.result-handler"}, "element i of an array result exists only if the array operand's backend wraps the result", None),
     ],
     "C04": [
-        ("c03", {"C03.wrap-spec": "C04.wrap-spec", "C03.value-preserving-fill": "C04.value-preserving-fill", "C03.wrap-awkward": "C04.wrap-awkward"},
+        ("c03", {"C03.wrap-spec": "C04.wrap-spec", "C03.value-preserving-fill": "C04.value-preserving-fill", "C03.scalar-promotion": "C04.scalar-promotion", "C03.wrap-awkward": "C04.wrap-awkward"},
          "to_*() results are built by the backends' _wrap_result: retained coordinates bit-for-bit, the keyword value unchanged", None),
         ("c18", {"C18.transform-flag": "C04.identity-kernels-untransformed"}, "an identity accessor run through ak.transform no longer returns the stored column unchanged", None),
     ],
